@@ -22,6 +22,52 @@ theorem readFull_ok {n : Nat} {s : Bytes} {e : End} {h rest : Bytes}
       · simp at hf
       · split at hf <;> simp at hf
 
+theorem gather_some {cs : List Bytes} {need : Nat} {acc out : Bytes} {rest : List Bytes}
+    (h : gather cs need acc = some (out, rest)) :
+    out = acc ++ cs.flatten.take need ∧ rest.flatten = cs.flatten.drop need ∧ need ≤ cs.flatten.length := by
+  induction cs generalizing need acc with
+  | nil =>
+    simp only [gather] at h
+    split at h
+    · rename_i h0; subst h0; simp at h; obtain ⟨rfl, rfl⟩ := h; simp
+    · cases h
+  | cons c cs ih =>
+    simp only [gather] at h
+    split at h
+    · rename_i h0; subst h0; simp at h; obtain ⟨rfl, rfl⟩ := h; simp
+    · split at h
+      · rename_i hne hle
+        obtain ⟨h1, h2, h3⟩ := ih h
+        refine ⟨?_, ?_, ?_⟩
+        · rw [h1]; simp [List.take_append, List.take_of_length_le hle]
+        · rw [h2]; simp [List.drop_append, List.drop_of_length_le hle]
+        · rw [List.flatten_cons, List.length_append]; omega
+      · rename_i hne hgt
+        simp at h; obtain ⟨rfl, rfl⟩ := h
+        have hlt : need ≤ c.length := by omega
+        refine ⟨?_, ?_, ?_⟩
+        · simp [List.take_append, Nat.sub_eq_zero_of_le hlt]
+        · simp [List.drop_append, Nat.sub_eq_zero_of_le hlt]
+        · rw [List.flatten_cons, List.length_append]; omega
+
+theorem gather_none {cs : List Bytes} {need : Nat} {acc : Bytes}
+    (h : gather cs need acc = none) : cs.flatten.length < need := by
+  induction cs generalizing need acc with
+  | nil =>
+    simp only [gather] at h
+    split at h
+    · cases h
+    · simp; omega
+  | cons c cs ih =>
+    simp only [gather] at h
+    split at h
+    · cases h
+    · split at h
+      · rename_i hne hle
+        have := ih h
+        rw [List.flatten_cons, List.length_append]; omega
+      · cases h
+
 theorem parseHeader_ok_of_length {h : Bytes} (hl : h.length = 5) : ∃ tp size, parseHeader h = .ok tp size := by
   match h, hl with
   | [a,b,c,d,e'], _ => exact ⟨_, _, rfl⟩
